@@ -263,11 +263,17 @@ class SeriesContainer:
                 if np is not None and isinstance(serie, np.ndarray):
                     if not self.support_ndim and serie.ndim != 1:
                         raise Exception('N-dimensional arrays are not supported (serie.ndim = {})'.format(serie.ndim))
+                    if serie.dtype != np.double:
+                        # The C code reads the buffer as doubles
+                        serie = np.asarray(serie, dtype=np.double, order="C")
+                        self.series[i] = serie
                     if not serie.flags.c_contiguous:
                         serie = np.asarray(serie, order="C")
                         self.series[i] = serie
                 elif isinstance(serie, array):
-                    pass
+                    if serie.typecode != 'd':
+                        # The C code reads the buffer as doubles
+                        self.series[i] = array('d', serie)
                 else:
                     raise Exception(
                         "Type of series not supported, "
